@@ -412,12 +412,12 @@ fn check_case(run: &Run, case: &Case, origin: &'static str, case_seed: Option<u6
 // deterministic small-scope families
 
 fn line_geo() -> Geo {
-    Geo { coords: vec![(0, 0), (1, 0), (2, 0), (3, 0)], dist: Metric::Line, dur: Metric::Line, dur_scale: 1 }
+    Geo { coords: vec![(0, 0), (1, 0), (2, 0), (3, 0)], dist: Metric::Line, dur: Metric::Line, dur_scale: 1, tilt: false }
 }
 
 fn grid_geo() -> Geo {
     // 2 x 2 Manhattan grid, durations twice the distance
-    Geo { coords: vec![(0, 0), (1, 0), (0, 1), (1, 1)], dist: Metric::Manhattan, dur: Metric::Manhattan, dur_scale: 2 }
+    Geo { coords: vec![(0, 0), (1, 0), (0, 1), (1, 1)], dist: Metric::Manhattan, dur: Metric::Manhattan, dur_scale: 2, tilt: false }
 }
 
 fn vehicle(closed: bool, capacity: i32) -> VehicleSpec {
